@@ -275,9 +275,21 @@ def rule_s10(F):
     return out
 
 
+def rule_s12(F):
+    """Calling a handle while other threads drop packages is safe: what the code refers to by address is owned by the shared module
+    data every handle holds - including the state of registered host closures (shared with C11.H13)."""
+    from . import c11
+    r = c11.rule_h13(F)
+    r.rule = "C12.S12"
+    r.desc = "registered host closures are kept alive by the shared module data that every handle owns (a handle on another thread never calls a freed closure)"
+    for v in r.violations:
+        v.rule = "C12.S12"
+    return r
+
+
 def rules(ctx):
     F = ctx["F"]
-    return [rule_s1(F), rule_s3(F), rule_s5(F), rule_s6(F), rule_s7(F), rule_s8(F), rule_s9(F)] + rule_s10(F)
+    return [rule_s1(F), rule_s3(F), rule_s5(F), rule_s6(F), rule_s7(F), rule_s8(F), rule_s9(F)] + rule_s10(F) + [rule_s12(F)]
 
 
 def thorough_rules(ctx):
